@@ -23,7 +23,7 @@ MANIFEST_INFO = {
 
 # extra kinds: custom exception classes and subclasses of the signal exceptions
 CUSTOM_FRONT, CUSTOM_MID, SKIP_SUB, FAIL_SUB, XFAIL_SUB = "custom_front", "custom_mid", "skip_sub", "fail_sub", "xfail_sub"
-KINDS = pg.ALL_KINDS + (CUSTOM_FRONT, CUSTOM_MID, SKIP_SUB, FAIL_SUB, XFAIL_SUB)
+KINDS = pg.ALL_KINDS + (CUSTOM_FRONT, CUSTOM_MID, SKIP_SUB, FAIL_SUB, XFAIL_SUB, "multi_fail_skip", "fx_skip_bad_cleanup")
 
 
 class CustomFront(Exception):
@@ -46,6 +46,8 @@ class XFailSub(_ExpectedFailure):
     pass
 
 
+MULTI_FAIL_SKIP = "multi_fail_skip"  # one MultipleExceptions: a failure, then a skip (the skip is the LAST constituent)
+FX_SKIP_BAD_CLEANUP = "fx_skip_bad_cleanup"  # useFixture: _setUp skips, its own cleanup then fails while it unwinds
 BAD = (pg.FAIL, pg.ERROR, pg.KBI, pg.SYSEXIT, FAIL_SUB)
 MAPPED = {
     pg.FAIL: "addFailure",
@@ -66,7 +68,42 @@ UNSUCCESSFUL = ("addError", "addFailure", "addUnexpectedSuccess")
 _orig_perform = pg.perform
 
 
+class _SkipThenBoomFixture(__import__("fixtures").Fixture):
+    def __init__(self, case, marker):
+        super().__init__()
+        self._case, self._marker = case, marker
+
+    def _setUp(self):
+        self.addCleanup(self._boom)
+        raise self._case.skipException(self._marker + "/skip")
+
+    def _boom(self):
+        raise pg.VerifError(self._marker + "/cleanup")
+
+
 def perform(case, ctx, stage, kind):
+    if kind == MULTI_FAIL_SKIP:
+        from testtools.runtest import MultipleExceptions
+
+        marker = "%s!%s" % (stage, kind)
+        ctx.raised.append((stage, kind, marker))
+        ctx.xlog.append(("raise", stage, kind))
+        infos = []
+        try:
+            case.fail(marker + "/f")
+        except case.failureException:
+            infos.append(sys.exc_info())
+        try:
+            case.skipTest(marker + "/s")
+        except case.skipException:
+            infos.append(sys.exc_info())
+        raise MultipleExceptions(*infos)
+    if kind == FX_SKIP_BAD_CLEANUP:
+        marker = "%s!%s" % (stage, kind)
+        ctx.raised.append((stage, kind, marker))
+        ctx.xlog.append(("raise", stage, kind))
+        case.useFixture(_SkipThenBoomFixture(case, marker))
+        raise AssertionError("useFixture returned")
     if kind in (CUSTOM_FRONT, CUSTOM_MID, SKIP_SUB, FAIL_SUB, XFAIL_SUB):
         marker = "%s!%s" % (stage, kind)
         ctx.raised.append((stage, kind, marker))
@@ -89,6 +126,8 @@ def perform(case, ctx, stage, kind):
 
 for _k in (CUSTOM_FRONT, CUSTOM_MID, SKIP_SUB, FAIL_SUB, XFAIL_SUB):
     pg.FLATTEN[_k] = (_k,)
+pg.FLATTEN[MULTI_FAIL_SKIP] = (pg.FAIL, pg.SKIP)
+pg.FLATTEN[FX_SKIP_BAD_CLEANUP] = (pg.SKIP, pg.ERROR, pg.ERROR)  # skip, the cleanup's error, fixtures' SetupError
 
 
 def _do_insert_handlers(case, ctx, site, action):
